@@ -1,5 +1,6 @@
 """Program model over the extracted facts: expressions, CFG, dataflow, function-pointer bindings, call graph."""
 import itertools
+import re
 from collections import defaultdict, deque
 
 from units import AnalysisBroken, extract
@@ -344,6 +345,40 @@ def _canonicalise_names(raw, unit):
     raw["_renamed"] = ren
 
 
+def _canonicalise_types(raw, unit):
+    """Type spellings: a record named by its tag (`struct _mod *`) is read as the typedef the reference uses (`m_mod_t *`); a
+    top-level const on a pointer (`T *const p`) is dropped.  Only the as-written field `t` is touched, `ct` stays canonical."""
+    if raw.get("_types_done"):
+        return
+    raw["_types_done"] = True
+    tm = _namemap().get("__types__", {}).get(unit, {})
+
+    def fix(t):
+        if not isinstance(t, str):
+            return t
+        if "struct " in t:
+            for tag, td in tm.items():
+                if tag in t:
+                    t = re.sub(r"\b%s\b" % re.escape(tag), td, t)
+        t = re.sub(r"\*\s*const$", "*", t)
+        return t
+
+    def visit(n):
+        if isinstance(n, dict):
+            if "t" in n:
+                n["t"] = fix(n["t"])
+            for v in n.values():
+                visit(v)
+        elif isinstance(n, list):
+            for v in n:
+                visit(v)
+    visit(raw["blocks"])
+    for p_ in raw["params"]:
+        p_["t"] = fix(p_.get("t"))
+    if "ret_t" in raw:
+        raw["ret_t"] = fix(raw["ret_t"])
+
+
 def _canonicalise_incdec(raw):
     """`x += 1;`, `x -= 1;`, `x = x + 1;`, `x = x - 1;` as statements are the increment/decrement events `x++;` / `x--;`."""
     if raw.get("_incdec_done"):
@@ -398,6 +433,7 @@ def _substitute_new_locals(raw, unit):
 
 class Func:
     def __init__(self, raw, unit):
+        _canonicalise_types(raw, unit)
         _canonicalise_names(raw, unit)
         _canonicalise_params(raw)
         _canonicalise_incdec(raw)
@@ -789,7 +825,7 @@ def _mentions(atom, lv):
 
 # static helpers with exactly one caller in the reference tree: helper -> caller (used only when the helper no longer exists)
 FOLDED_INTO = {"tell_subscribers": "tell_pubsub_msg", "alloc_ps_msg": "tell_if", "_pipe": "init_pubsub_fd", "loop_quit": None,
-               "insert_node": "m_bst_insert", "is_system_message": "m_mod_ps_publish"}
+               "insert_node": "m_bst_insert"}
 
 
 class Program:
